@@ -32,7 +32,7 @@ CONSTANTS
     Ops,        \* names of the enabled actions
     Scope,      \* "mini" | "small" | "full": size of the argument families
     Depth,      \* length of generated behaviours; 0 = (M) mode (no hist)
-    ShapeName,  \* "free" | "bwb" | "bwwb": forced op classes per step (C10 bias)
+    ShapeName,  \* "free" | "bwb" | "bwwb" (C10 bias) | "clr2": forced op classes per step
     InitMode,   \* "empty" | "some" | "any"
     MaxOpNs,    \* subset of {"tiny", "huge"}
     Provs,      \* how the initial contents got there: "ops" | "snap" | "reopen"
@@ -131,6 +131,10 @@ ShapeOK(op) ==
     CASE ShapeName = "free" -> TRUE
       [] ShapeName = "bwb"  -> IF i % 2 = 1 THEN op = "Blocks" ELSE op # "Blocks"
       [] ShapeName = "bwwb" -> IF i % 3 = 1 THEN op = "Blocks" ELSE op # "Blocks"
+      \* a clear that may leave an emptied container behind, then a whole-row / same-row write
+      [] ShapeName = "clr2" -> IF i = 1 THEN op \in {"RoaringClear", "BulkClear", "ClearBit"}
+                               ELSE IF i = 2 THEN op \in {"ClearRow", "ClearBit", "SetRow", "SetBit"}
+                               ELSE TRUE
       [] OTHER -> TRUE
 
 \* ---- the step: record what the caller must observe, update ghosts
